@@ -56,6 +56,16 @@ def boot():
         for m in ("L-BFGS-B", "TNC", "BFGS", "CG", "Newton-CG", "Nelder-Mead", "Powell"):
             so.minimize(f, [0.0, 0.0], jac=g if m not in ("Nelder-Mead", "Powell") else None, method=m,
                         hess=h if m == "Newton-CG" else None)
+    # HiGHS starts a global pool of worker threads at its first run.  Threads do not survive fork():
+    # a child that inherits the "pool exists" state deadlocks as soon as HiGHS needs a worker (MIP
+    # solves -- integrality= passed through to linprog -- do).  Shut the pool down here, so that
+    # this process is single-threaded again and every child starts its own pool on demand.
+    try:
+        from scipy.optimize._highspy._core import _Highs
+
+        _Highs.resetGlobalScheduler(True)
+    except Exception:  # noqa: BLE001 - other SciPy layouts: the generators avoid MIP keywords anyway
+        pass
     try:
         from packaging import version  # noqa: F401  (imported lazily by lp_solver)
     except Exception:  # noqa: BLE001
